@@ -7,6 +7,7 @@
           | ( factor <ophex> E ) | ( chain <handlerhex> E <ophex> E … ) | ( group E ) | ( call <fnhex> E … )
     oracle <key> <answer>              one observation of the float interpretation (see below)           → ok
     impl <keyhex>                      execImpl of that member in the whole environment                  → value | error
+    emit <keyhex> <T> <varTypeHex> <0|1> emitValue of that member (T = type_of outcome, printed type name, type_is(str)) → text <hex> | error
     unesc <bodyhex>                    decodeOct of a string-literal body (octal escapes only)                → hex
     py <mode> <keyhex>                 evalPy (mode = py | strict) of that member with the members before it bound → value | error
 
@@ -22,6 +23,7 @@
 -/
 import Tranp.Driver.Common
 import Tranp.Model.Evaluator
+import Tranp.Model.EmitValue
 
 namespace Tranp.Driver.Eval
 open Tranp Tranp.Evaluator Tranp.Driver
@@ -110,7 +112,7 @@ def symOps (o : Oracle) : FloatOps FTerm where
   toStr t :=
     match o.lookup ("str:" ++ render t) with
     | some h => unhexD h
-    | none => s2l ("\x00need str:" ++ render t ++ "\x01")
+    | none => s2l ("\x00\x00need str:" ++ render t ++ "\x01\x01")   -- doubled ends: survives one `[1:-1]`
   truediv a b := guarded o (.truediv a b)
 
 /-! ### parsing the expression encoding -/
@@ -241,6 +243,16 @@ def step (st : St) : List String → St × String
       | .ok v => (st, showVal st.oracle Str.hex v)
       | .error er => (st, showPyErr er)
     | _, _ => (st, "bad-op")
+  | ["emit", key, te, varType, isStr] =>
+    match memberIndex st.env.members (unhexD key) with
+    | some (_, e) =>
+      let ty : Except TyErr TyInfo := match parseErr te with
+        | some er => .error er
+        | none => .ok ⟨unhexD varType, isStr == "1"⟩
+      match emitValue (symOps st.oracle) st.env fuel ⟨e, ty⟩ with
+      | .ok t => (st, match findNeed t with | some n => n | none => "text " ++ Str.hex t)
+      | .error er => (st, showErr er)
+    | none => (st, "bad-op")
   | ["unesc", body] => (st, Str.hex (decodeOct (unhexD body)))
   | _ => (st, "bad-op")
 
